@@ -10,6 +10,8 @@ A *pipeline case* is a dict:
   strategy   {'kind': …, 'params': {…}, 'seed': n}
   refuse     list of thread names whose start is refused
   read_fault None | n   (the n-th read() call on a content file raises OSError(EIO))
+  hash_fault None | [[hasher name, n], …]   (the n-th sha1() call made by that hasher thread raises
+             MemoryError inside HasherPool._handle_piece; n counts from 1; added for C01)
   max_steps
 """
 import errno
@@ -113,6 +115,8 @@ def run_case(torf, wd, c):
     shim.install_spin_monitor([G, S])
     saved = (G.threading, G.queue, G.time_monotonic)
     saved_open = S.__dict__.get('open', None)
+    saved_sha1 = G.sha1
+    hash_plan = {'faults': [tuple(x) for x in (c.get('hash_fault') or [])], 'calls': {}, 'fired': []}
     plan = {'calls': 0, 'fail_at': c.get('read_fault'), 'fired': 0, 'burst': c.get('read_fault_burst', 1),
             'kind': c.get('read_fault_kind', 'oserror')}
     gate_nows = []
@@ -128,6 +132,15 @@ def run_case(torf, wd, c):
         return sched.now
 
     G.threading, G.queue, G.time_monotonic = th, qu, clock
+    if hash_plan['faults']:
+        def sha1_proxy(*a, **k):
+            name = shim.cur().name
+            n = hash_plan['calls'][name] = hash_plan['calls'].get(name, 0) + 1
+            if (name, n) in hash_plan['faults']:
+                hash_plan['fired'].append([name, n])
+                raise MemoryError('injected: out of memory in sha1()')
+            return saved_sha1(*a, **k)
+        G.sha1 = sha1_proxy
     if c.get('read_fault') is not None or c.get('count_reads'):
         import builtins
         S.open = lambda p, mode='r', *a, **k: _FaultyFile(builtins.open(p, mode, *a, **k), plan)
@@ -170,6 +183,8 @@ def run_case(torf, wd, c):
             else:
                 res['ret'] = t.verify(top, threads=c['threads'], callback=user_cb if cbspec else None,
                                       interval=c.get('interval', 0))
+        except shim._Abort:
+            pass                     # unwound by the scheduler after a deadlock/livelock/budget outcome: no result
         except BaseException as e:   # noqa
             res['exc'] = e
 
@@ -177,6 +192,7 @@ def run_case(torf, wd, c):
         sched.run(main)
     finally:
         G.threading, G.queue, G.time_monotonic = saved
+        G.sha1 = saved_sha1
         if saved_open is None:
             S.__dict__.pop('open', None)
         else:
@@ -190,6 +206,7 @@ def run_case(torf, wd, c):
         'want_pieces': want_pieces,
         'total': len(want_pieces) // 20,
         'read_calls': plan['calls'], 'fault_fired': plan['fired'],
+        'hash_fault_fired': hash_plan['fired'],
         'gate_nows': gate_nows,
         'structure': {'pq_max': sched.queues[0].maxsize if sched.queues else None,
                       'hq_max': sched.queues[1].maxsize if len(sched.queues) > 1 else None},
